@@ -81,45 +81,7 @@ Foo.x = 1
 @decorators
 class Foo(object, list, set, tuple, []):
     pass
-
-Foo.x = 1
-        """,
-        ),
-        (
-            """
-@a
-@bunch
-@of
-@decorators
-class Foo(object):
-    pass
-
-Foo.x = 1
-        """,
-        """
-@a
-@bunch
-@of
-@decorators
-class Foo(object):
-    pass
     x = 1
-        """,
-        ),
-        (
-            """
-class Foo:
-    pass
-
-Foo.x = 1
-Foo.__eq__ = lambda self, other: True
-        """,
-        """
-class Foo:
-    pass
-    x = 1
-
-Foo.__eq__ = lambda self, other: True
         """,
         ),
         (
